@@ -435,7 +435,11 @@ func (pf *ParserFacts) deriveIdx(v ssa.Value, list bool, onlyIdx int64) *derivat
 							pushT(y)
 						default:
 							if len(cv.Args) > 0 && cv.Args[0] == x && callee.Signature.Recv() != nil {
-								pushV(y) // results derived from the container
+								if isTypeLevelType(y.Type()) {
+									pushT(y) // helper returning the type(s) of the container's values
+								} else {
+									pushV(y) // results derived from the container
+								}
 							}
 						}
 					}
@@ -512,6 +516,18 @@ func (pf *ParserFacts) deriveIdx(v ssa.Value, list bool, onlyIdx int64) *derivat
 		}
 	}
 	return d
+}
+
+// isTypeLevelType: the parser's own type descriptors (ValueType, DataType, StatementType) or a list of them.
+func isTypeLevelType(t types.Type) bool {
+	if sl, ok := t.Underlying().(*types.Slice); ok {
+		t = sl.Elem()
+	}
+	switch namedName(t) {
+	case "ValueType", "DataType", "StatementType":
+		return true
+	}
+	return false
 }
 
 // atomsOn: guard atoms whose condition is computed from type-level values of d.
